@@ -41,7 +41,7 @@ func isHybridPQ(g uint16) bool { return g == 0x11ec || g == 0x6399 }
 
 // C09 — Randomized fingerprints are seed-reproducible and internally consistent.
 func TestC09(t *testing.T) {
-	r := mon.New("C09", "PRNG seeds x {default weights, sampled 0/1 corner vectors} x {Randomized, RandomizedALPN, RandomizedNoALPN}: two UTLSIdToSpec calls and two built connections per (seed, weights) give equal normalised fingerprints; 0/1 weights give absent/present features unless a TLS 1.3 rule forces them; consistency invariants checked on the parsed wire hello. distinct = normalised fingerprints")
+	r := mon.New("C09", "PRNG seeds x {default weights, sampled 0/1 corner vectors} x {Randomized, RandomizedALPN, RandomizedNoALPN}: two UTLSIdToSpec calls and two built connections per (seed, weights) give equal normalised fingerprints, also under Configs with version bounds set by the caller and Config objects that already served a parrot connection (compared with a fresh Config holding the same ALPN list); 0/1 weights give absent/present features unless a TLS 1.3 rule forces them; consistency invariants checked on the parsed wire hello. distinct = normalised fingerprints")
 	defer r.Finish(t)
 	n := mon.Pick(12000, 200000)
 	feature := map[string]int{}
@@ -151,6 +151,52 @@ func TestC09(t *testing.T) {
 				raws = append(raws, raw5)
 				protoNote = append(protoNote, "Config.NextProtos set")
 				feature["with_config_nextprotos"]++
+			}
+		}
+		// the caller's Config beyond NextProtos: version bounds set by the caller, or a Config
+		// object that already served another connection (uTLS writes the spec's versions and
+		// ALPN list into it).  The fingerprint is a function of (id, seed, weights) and of the
+		// ALPN list the Config holds, nothing else.
+		if i%4 == 1 || i%4 == 2 {
+			var shared *tls.Config
+			note := ""
+			switch (i / 4) % 6 {
+			case 0:
+				shared = &tls.Config{ServerName: "example.test", OmitEmptyPsk: true, MaxVersion: tls.VersionTLS12}
+				note = "Config.MaxVersion=TLS1.2"
+			case 1:
+				shared = &tls.Config{ServerName: "example.test", OmitEmptyPsk: true, MinVersion: tls.VersionTLS10, MaxVersion: tls.VersionTLS11}
+				note = "Config.Min/MaxVersion=TLS1.0/1.1"
+			case 2:
+				shared = &tls.Config{ServerName: "example.test", OmitEmptyPsk: true, MinVersion: tls.VersionTLS13}
+				note = "Config.MinVersion=TLS1.3"
+			default:
+				shared = &tls.Config{ServerName: "example.test", OmitEmptyPsk: true}
+				first := []tls.ClientHelloID{tls.HelloFirefox_55, tls.HelloChrome_58, tls.HelloIOS_11_1, tls.HelloChrome_120, tls.HelloFirefox_102}[(i/24)%5]
+				if _, _, err, pn := buildHello(shared, first, nil); err != nil || pn != "" {
+					shared = nil
+				}
+				note = "Config reused after a " + first.Str() + " connection"
+			}
+			if shared != nil {
+				left := append([]string(nil), shared.NextProtos...)
+				rawA, _, errA, pnA := buildHello(shared, mk(), nil)
+				cfgProtos = left
+				cB, _, errB := build(mk(), false)
+				cfgProtos = nil
+				if errA != nil || pnA != "" || errB != nil {
+					r.Violation(sig("randomized_build_error"), fmt.Sprintf("%s: %v %s / %v", note, errA, pnA, errB), rep)
+				} else if cA, perr := wire.ParseClientHello(rawA); perr != nil {
+					r.Violation(sig("randomized_build_error"), note+": "+perr.Error(), rep)
+				} else {
+					if nA, nB := NormHello(cA, NormOpts{}), NormHello(cB, NormOpts{}); nA != nB {
+						r.Violation(sig("fingerprint_depends_on_config"), fmt.Sprintf("%s: the hello differs from the one a fresh Config with the same ALPN list (%v) gives for the same id, seed and weights: %s", note, left, diffNorm(nB, nA)), rep)
+					}
+					hellos = append(hellos, cA)
+					raws = append(raws, rawA)
+					protoNote = append(protoNote, note)
+					feature["with_caller_config_state"]++
+				}
 			}
 		}
 		for hi, ch := range hellos {
